@@ -147,6 +147,7 @@ func layoutDocument(doc *tree.HTML, rootBox bo.BlockLevelBoxITF, context *layout
 	actualTotalPages := 0
 
 	for loop := 0; loop < maxLoops; loop += 1 {
+		verifLoop(context, doc, loop)
 		if loop > 0 {
 			logger.ProgressLogger.Printf("Step 5 - Creating layout - Repagination #%d \n", loop)
 			context.footnotes = append([]Box(nil), originalFootnotes...)
@@ -176,6 +177,7 @@ func layoutDocument(doc *tree.HTML, rootBox bo.BlockLevelBoxITF, context *layout
 			break
 		}
 	}
+	verifLoop(context, doc, -1)
 
 	// Calculate string-sets and bookmark-label containing page based counters
 	// when pagination is finished. No need to do that (maybe multiple times) in
